@@ -290,6 +290,8 @@ def generate(outdir, seed, npairs):
             continue
         if (b.flags | a.flags) & tg.F_AMBIGUOUS:
             continue
+        if "std::vector<bool>" in a.cpp or "std::vector<bool>" in b.cpp:      # not a supported type (no data()); rewrites of bool sequences can produce it
+            continue
         seen.add((a.cpp, b.cpp))
         pairs.append((a, b, rule, exp))
     # systematic family: maps whose KEY types are fungible but not identical (the element-wise rule applies to keys as to values)
